@@ -24,7 +24,7 @@ PROPS['C01'] = dict(
           'with clean / dirty tails; all strings over {0,1,6,7} up to res 11); closure cases call every cell-producing API. '
           'non-trivial = the documented layout says valid, or exactly one rule is violated, or (closure) at least one cell was produced; distinct by value / call'),
     quick=dict(cases={'fast': 60_000_000, 'asan': 3_000_000}, enum={'fast': 8}),
-    thorough=dict(cases={'fast': 2_000_000_000, 'asan': 60_000_000}, enum={'fast': 16}),
+    thorough=dict(cases={'fast': 1_000_000_000, 'asan': 40_000_000}, enum={'fast': 16}),
     strata=dict(quick=['(res, base cell 0..127, position 1..15, digit 0..7) x 7 backgrounds', 'all 256 top bytes x 16 res x 4 bodies',
                        'all digit strings of length <=6 over {0..7} x clean/dirty tails x base cells {0,4,117,121,122,127}', 'all strings over {0,1,6,7}, res<=11, base cells {0,4}'],
                 thorough=['as quick with lengths <=7 and res<=13']),
